@@ -175,9 +175,11 @@ fn main() {
         .and_then(|s| s.parse().ok())
         .unwrap_or_else(|| std::thread::available_parallelism().map(|n| n.get()).unwrap_or(4));
     let variant = arg_value(&args, "--variant").unwrap_or_else(|| "r-def".to_string());
-    let shard = std::env::var("VERIF_SHARD").ok().and_then(|s| {
+    // a shard is named on the command line (--shard i/n --shard-out FILE; under Miri the
+    // environment seen by the program is the one recorded at build time) or in the environment
+    let shard = arg_value(&args, "--shard").or_else(|| std::env::var("VERIF_SHARD").ok()).and_then(|s| {
         let (a, b) = s.split_once('/')?;
-        Some((a.parse().ok()?, b.parse().ok()?, std::env::var("VERIF_SHARD_OUT").ok()?))
+        Some((a.parse().ok()?, b.parse().ok()?, arg_value(&args, "--shard-out").or_else(|| std::env::var("VERIF_SHARD_OUT").ok())?))
     });
     // default: one single-threaded process per core (no shared stderr lock); Miri cannot spawn
     let procs: usize = arg_value(&args, "--procs").and_then(|s| s.parse().ok()).unwrap_or(if tier == Tier::Tiny { 1 } else { threads });
@@ -254,6 +256,28 @@ fn main() {
                     std::process::exit(2);
                 }
             }
+        }
+        "merge" => {
+            // dsiverif merge <PROP> <out.json> <shard.bin>...   (used by the Miri / sanitizer stages)
+            let prop = args.get(2).expect("property id").clone();
+            let out = args.get(3).expect("output file").clone();
+            let mut total = Report::new(&prop);
+            let mut n = 0;
+            for f in &args[4..] {
+                if f.starts_with("--") {
+                    break;
+                }
+                match std::fs::read(f) {
+                    Ok(b) => {
+                        total.merge(Report::from_bytes(&b));
+                        n += 1;
+                    }
+                    Err(_) => total.inconclusive(format!("missing shard report {}", f)),
+                }
+            }
+            let json = total.to_json(ctx.tier_name(), seed, &variant, 0.0);
+            std::fs::write(&out, &json).expect("cannot write merged result");
+            println!("[dsiverif] merged {} shard reports of {}: evaluations={} violations={} inconclusive={}", n, prop, total.evaluations, total.violations.len(), total.inconclusive.len());
         }
         "probe-one" => {
             props::diag::probe_one(args.get(2).expect("reader kind"));
